@@ -20,6 +20,23 @@ class Unsupported(Exception):
     pass
 
 
+def clone(n):
+    """structural copy of a syntax tree: fields and positions only (the program model hangs `_parent` links on the nodes, which a
+    deepcopy would follow through the whole module)"""
+    if isinstance(n, list):
+        return [clone(x) for x in n]
+    if not isinstance(n, ast.AST):
+        return n
+    new = n.__class__()
+    for f in n._fields:
+        if hasattr(n, f):
+            setattr(new, f, clone(getattr(n, f)))
+    for a in ('lineno', 'col_offset', 'end_lineno', 'end_col_offset'):
+        if hasattr(n, a):
+            setattr(new, a, getattr(n, a))
+    return new
+
+
 class Outcome:
     def __init__(self, kind: str, value: Optional[ast.AST], conds: List[Tuple[str, bool]], node: Optional[ast.AST]):
         self.kind = kind            # 'return' | 'raise' | 'fall'
@@ -40,7 +57,7 @@ class _Subst(ast.NodeTransformer):
 
     def visit_Name(self, n):
         if isinstance(n.ctx, ast.Load) and n.id in self.env:
-            return copy.deepcopy(self.env[n.id])
+            return clone(self.env[n.id])
         return n
 
     def visit_Lambda(self, n):
@@ -63,7 +80,7 @@ class _Subst(ast.NodeTransformer):
 
 
 def subst(e: ast.AST, env: Dict[str, ast.AST]) -> ast.AST:
-    return _Subst(env).visit(copy.deepcopy(e))
+    return _Subst(env).visit(clone(e))
 
 
 class Evaluator:
@@ -136,7 +153,7 @@ class Evaluator:
                 if not keep:
                     return ast.Constant(isinstance(n.op, ast.And))
                 return keep[0] if len(keep) == 1 else ast.BoolOp(n.op, keep)
-        return T().visit(copy.deepcopy(e))
+        return T().visit(clone(e))
 
     # ---- statements -----------------------------------------------------------------------------------------------------
     def run(self, fn_node: ast.AST) -> List[Outcome]:
